@@ -1,11 +1,957 @@
 import ScryerModel.Model.NumLex
+import Mathlib.Tactic.Ring
+import Mathlib.Tactic.Linarith
 /-! helper lemmas for C16 (Scryer.NumLex) -/
 namespace Scryer.NumLex
+
+/-! ### Horner -/
 
 theorem hornerFrom_append (radix acc : Nat) (xs ys : List Char) :
     hornerFrom radix acc (xs ++ ys) = hornerFrom radix (hornerFrom radix acc xs) ys := by
   induction xs generalizing acc with
   | nil => rfl
   | cons c cs ih => simp [hornerFrom, ih]
+
+theorem hornerFrom_acc (radix acc : Nat) (xs : List Char) :
+    hornerFrom radix acc xs = acc * radix ^ xs.length + hornerFrom radix 0 xs := by
+  induction xs generalizing acc with
+  | nil => simp [hornerFrom]
+  | cons c cs ih =>
+    simp only [hornerFrom, List.length_cons]
+    rw [ih (acc * radix + digitVal c), ih (0 * radix + digitVal c), Nat.pow_succ]
+    ring
+
+theorem horner_snoc (radix : Nat) (ds : List Char) (c : Char) :
+    horner radix (ds ++ [c]) = horner radix ds * radix + digitVal c := by
+  simp [horner, hornerFrom_append, hornerFrom]
+
+theorem horner_cons (radix : Nat) (c : Char) (ds : List Char) :
+    horner radix (c :: ds) = digitVal c * radix ^ ds.length + horner radix ds := by
+  simp only [horner, hornerFrom]
+  rw [hornerFrom_acc]; simp
+
+theorem horner_append (radix : Nat) (xs ys : List Char) :
+    horner radix (xs ++ ys) = horner radix xs * radix ^ ys.length + horner radix ys := by
+  simp only [horner, hornerFrom_append]
+  rw [hornerFrom_acc]
+
+theorem digitVal_zero : digitVal '0' = 0 := by decide
+
+theorem horner_replicate_zero (radix k : Nat) : horner radix (List.replicate k '0') = 0 := by
+  induction k with
+  | zero => rfl
+  | succ k ih => rw [List.replicate_succ, horner_cons, ih, digitVal_zero]; simp
+
+/-! ### spanP -/
+
+theorem spanP_append {p : Char → Bool} (ds rest : List Char) (hd : ∀ c ∈ ds, p c = true)
+    (hr : ∀ c r, rest = c :: r → p c = false) : spanP p (ds ++ rest) = (ds, rest) := by
+  induction ds with
+  | nil =>
+    cases rest with
+    | nil => rfl
+    | cons c r => simp [spanP, hr c r rfl]
+  | cons d ds ih =>
+    have := ih (fun c hc => hd c (by simp [hc]))
+    simp [spanP, hd d (by simp), this]
+
+theorem spanP_all {p : Char → Bool} (ds : List Char) (hd : ∀ c ∈ ds, p c = true) :
+    spanP p ds = (ds, []) := by
+  simpa using spanP_append ds [] hd (by intro c r h; cases h)
+
+/-! ### character facts -/
+
+theorem isDigit_iff (c : Char) : isDigit c = true ↔ 48 ≤ c.toNat ∧ c.toNat ≤ 57 := by
+  simp [isDigit]
+
+theorem ne_of_isDigit {c d : Char} (hc : isDigit c = true) (hd : isDigit d = false) : c ≠ d := by
+  rintro rfl; simp_all
+
+theorem isDigit_not_layout {c : Char} (h : isDigit c = true) : isLayout c = false := by
+  rw [isDigit_iff] at h
+  simp only [isLayout, Bool.or_eq_false_iff, beq_eq_false_iff_ne]
+  omega
+
+/-! ### layout -/
+
+theorem scanForLayout_digit {c : Char} (h : isDigit c = true) (r : List Char) :
+    scanForLayout (c :: r) = .ok (false, c :: r) := by
+  have h1 := isDigit_not_layout h
+  have h2 : c ≠ '%' := ne_of_isDigit h (by decide)
+  have h3 : c ≠ '/' := ne_of_isDigit h (by decide)
+  simp only [scanForLayout]
+  unfold scanL
+  simp [h1, h2, h3]
+
+theorem scanL_layout (lay : List Char) (hl : ∀ x ∈ lay, isLayout x = true) (b : Bool)
+    {c : Char} (h : isDigit c = true) (r : List Char) :
+    scanL .base b (lay ++ c :: r) = .ok (b || !lay.isEmpty, c :: r) := by
+  induction lay generalizing b with
+  | nil =>
+    have h1 := isDigit_not_layout h
+    have h2 : c ≠ '%' := ne_of_isDigit h (by decide)
+    have h3 : c ≠ '/' := ne_of_isDigit h (by decide)
+    rw [List.nil_append]
+    unfold scanL
+    simp [h1, h2, h3]
+  | cons x xs ih =>
+    have hx := hl x (by simp)
+    rw [List.cons_append]
+    unfold scanL
+    simp only [hx, if_true]
+    rw [ih (fun y hy => hl y (by simp [hy]))]
+    simp
+
+theorem skipUnderscore_plain {c : Char} (h : c ≠ '_') (r : List Char) :
+    skipUnderscore (c :: r) = .ok (c, c :: r) := by
+  simp [skipUnderscore, h]
+
+theorem skipUnderscore_us (lay : List Char) (hl : ∀ x ∈ lay, isLayout x = true)
+    {c : Char} (h : isDigit c = true) (r : List Char) :
+    skipUnderscore ('_' :: (lay ++ c :: r)) = .ok (c, c :: r) := by
+  have e : scanForLayout (lay ++ c :: r) = .ok (!lay.isEmpty, c :: r) := by
+    cases lay with
+    | nil => simpa using scanForLayout_digit h r
+    | cons x xs =>
+      have := scanL_layout (x :: xs) hl false h r
+      simpa [scanForLayout] using this
+  simp [skipUnderscore, e, h]
+
+
+/-- continuation of a decimal integer literal after its first digit: spelled text `s`
+    contributing the digits `ds` (digits, and `_` + layout + digit). -/
+inductive Cont : List Char → List Char → Prop
+  | nil : Cont [] []
+  | dig {d : Char} {s ds : List Char} : isDigit d = true → Cont s ds → Cont (d :: s) (d :: ds)
+  | sep {d : Char} {s ds : List Char} (lay : List Char) : isDigit d = true →
+      (∀ x ∈ lay, isLayout x = true) → Cont s ds → Cont ('_' :: (lay ++ d :: s)) (d :: ds)
+
+theorem Cont.allDigits {s ds : List Char} (h : Cont s ds) : ∀ c ∈ ds, isDigit c = true := by
+  induction h with
+  | nil => simp
+  | dig hd _ ih => intro c hc; simp at hc; rcases hc with rfl | hc; exact hd; exact ih c hc
+  | sep _ hd _ _ ih => intro c hc; simp at hc; rcases hc with rfl | hc; exact hd; exact ih c hc
+
+theorem Cont.ofDigits : ∀ (ds : List Char), (∀ c ∈ ds, isDigit c = true) → Cont ds ds
+  | [], _ => .nil
+  | d :: ds, h => .dig (h d (by simp)) (Cont.ofDigits ds (fun c hc => h c (by simp [hc])))
+
+/-- the text after the literal does not continue the integer part -/
+def StopInt (rest : List Char) : Prop := ∀ c r, rest = c :: r → isDigit c = false ∧ c ≠ '_'
+
+/-- what `number_token` does once the integer digits are read -/
+def finishInt (tok rest : List Char) : LexRes :=
+  match rest with
+  | [] => .ok (.part tok, [])
+  | c :: r => afterInt tok c r
+
+theorem intPart_cont {s ds : List Char} (h : Cont s ds) (strict : Bool) :
+    ∀ (fuel : Nat) (tok rest : List Char), s.length + 1 ≤ fuel → StopInt rest →
+      intPart strict fuel tok (s ++ rest) = finishInt (tok ++ ds) rest := by
+  induction h with
+  | nil =>
+    intro fuel tok rest hf hs
+    obtain ⟨f, rfl⟩ : ∃ f, fuel = f + 1 := ⟨fuel - 1, by simp at hf; omega⟩
+    cases rest with
+    | nil => simp [intPart, skipUnderscore, finishInt]
+    | cons c r =>
+      obtain ⟨hd, hu⟩ := hs c r rfl
+      simp [intPart, skipUnderscore_plain hu, hd, finishInt]
+  | @dig d s ds hd _ ih =>
+    intro fuel tok rest hf hs
+    obtain ⟨f, rfl⟩ : ∃ f, fuel = f + 1 := ⟨fuel - 1, by simp at hf; omega⟩
+    have hu : d ≠ '_' := ne_of_isDigit hd (by decide)
+    simp only [List.cons_append, intPart, skipUnderscore_plain hu, hd, if_true, List.drop_one, List.tail_cons]
+    rw [ih f (tok ++ [d]) rest (by simp at hf; omega) hs]
+    simp
+  | @sep d s ds lay hd hl _ ih =>
+    intro fuel tok rest hf hs
+    obtain ⟨f, rfl⟩ : ∃ f, fuel = f + 1 := ⟨fuel - 1, by simp at hf; omega⟩
+    have e : ('_' :: (lay ++ d :: s)) ++ rest = '_' :: (lay ++ d :: (s ++ rest)) := by simp
+    rw [e]
+    simp only [intPart, skipUnderscore_us lay hl hd, hd, if_true, List.drop_one, List.tail_cons]
+    rw [ih f (tok ++ [d]) rest (by simp at hf; omega) hs]
+    simp
+
+theorem numberToken_cont {d : Char} {s ds : List Char} (_hd : isDigit d = true) (h : Cont s ds)
+    (strict : Bool) (rest : List Char) (hs : StopInt rest) :
+    numberToken strict (d :: (s ++ rest)) = finishInt (d :: ds) rest := by
+  simp only [numberToken]
+  rw [intPart_cont h strict _ [d] rest (by simp) hs]
+  simp
+
+/-! ### finishing an integer token -/
+
+theorem validIn_ten (c : Char) : validIn 10 c = isDigit c := by simp [validIn]
+
+theorem parseRadix_digits {tok : List Char} (hne : tok ≠ []) (h : ∀ c ∈ tok, isDigit c = true) :
+    parseRadix 10 tok = .ok (horner 10 tok) := by
+  have h1 : tok.isEmpty = false := by cases tok <;> simp_all
+  have h2 : tok.all (validIn 10) = true := by
+    simp only [List.all_eq_true, validIn_ten]; exact h
+  simp [parseRadix, h1, h2]
+
+theorem mkInt_digits {tok : List Char} (hne : tok ≠ []) (h : ∀ c ∈ tok, isDigit c = true)
+    (rest : List Char) : mkInt tok rest = .ok (.int (horner 10 tok), rest) := by
+  simp [mkInt, parseRadix_digits hne h]
+
+/-- the character after an integer does not start a fraction, radix or character literal -/
+def PlainStop (tok : List Char) (c : Char) : Prop :=
+  c ≠ '.' ∧ (tok = ['0'] → c ≠ 'x' ∧ c ≠ 'o' ∧ c ≠ 'b' ∧ c ≠ '\'')
+
+theorem afterInt_plain {tok : List Char} {c : Char} (h : PlainStop tok c) (r : List Char) :
+    afterInt tok c r = mkInt tok (c :: r) := by
+  obtain ⟨h1, h2⟩ := h
+  by_cases ht : tok = ['0']
+  · obtain ⟨a, b, c', d⟩ := h2 ht
+    simp [afterInt, h1, ht, a, b, c', d]
+  · simp [afterInt, h1, ht]
+
+/-! ### showNat -/
+
+theorem digitChar_spec : ∀ d, d < 10 → digitVal (digitChar d) = d ∧ isDigit (digitChar d) = true := by
+  decide
+
+theorem showNatAux_digits (fuel n : Nat) (acc : List Char) (h : ∀ c ∈ acc, isDigit c = true) :
+    ∀ c ∈ showNatAux fuel n acc, isDigit c = true := by
+  induction fuel generalizing n acc with
+  | zero => simpa [showNatAux] using h
+  | succ f ih =>
+    have hd := (digitChar_spec (n % 10) (Nat.mod_lt _ (by decide))).2
+    have h' : ∀ c ∈ digitChar (n % 10) :: acc, isDigit c = true := by
+      intro c hc; simp at hc; rcases hc with rfl | hc; exact hd; exact h c hc
+    simp only [showNatAux]
+    split
+    · exact h'
+    · exact ih _ _ h'
+
+theorem showNatAux_ne_nil (fuel n : Nat) (acc : List Char) (hf : 0 < fuel) :
+    showNatAux fuel n acc ≠ [] := by
+  induction fuel generalizing n acc with
+  | zero => omega
+  | succ f ih =>
+    simp only [showNatAux]
+    split
+    · simp
+    · cases f with
+      | zero => simp [showNatAux]
+      | succ f => exact ih _ _ (by omega)
+
+theorem showNatAux_value (fuel n : Nat) (acc : List Char) (hf : n < fuel) :
+    horner 10 (showNatAux fuel n acc) = n * 10 ^ acc.length + horner 10 acc := by
+  induction fuel generalizing n acc with
+  | zero => omega
+  | succ f ih =>
+    have hv := (digitChar_spec (n % 10) (Nat.mod_lt _ (by decide))).1
+    simp only [showNatAux]
+    split
+    · rename_i h0
+      rw [horner_cons, hv]
+      have : n % 10 = n := by omega
+      rw [this]
+    · rename_i h0
+      rw [ih (n / 10) _ (by omega), horner_cons, hv]
+      simp only [List.length_cons, Nat.pow_succ]
+      have := Nat.div_add_mod n 10
+      generalize 10 ^ acc.length = p
+      generalize horner 10 acc = q
+      calc n / 10 * (p * 10) + (n % 10 * p + q) = (10 * (n / 10) + n % 10) * p + q := by ring
+        _ = n * p + q := by rw [this]
+
+theorem showNat_digits (n : Nat) : ∀ c ∈ showNat n, isDigit c = true :=
+  showNatAux_digits _ _ [] (by simp)
+
+theorem showNat_ne_nil (n : Nat) : showNat n ≠ [] := showNatAux_ne_nil _ _ [] (by omega)
+
+theorem showNat_value (n : Nat) : horner 10 (showNat n) = n := by
+  have := showNatAux_value (n + 1) n [] (by omega)
+  simpa [showNat, horner, hornerFrom] using this
+
+
+theorem isDigit_not_graphicToken {c : Char} (h : isDigit c = true) : isGraphicToken c = false := by
+  rw [isDigit_iff] at h
+  have : ∀ d : Char, d.toNat < 48 ∨ 57 < d.toNat → c ≠ d := by
+    rintro d hd rfl; omega
+  simp only [isGraphicToken, isGraphic, Bool.or_eq_false_iff, beq_eq_false_iff_ne]
+  repeat' apply And.intro
+  all_goals exact this _ (by decide)
+
+/-- reading the decimal digits of `n` as a complete text -/
+theorem nextNumberToken_showNat (strict : Bool) (n : Nat) :
+    nextNumberToken strict (showNat n) = .ok (.num (.int n), []) := by
+  have hd := showNat_digits n
+  have hne := showNat_ne_nil n
+  have hv := showNat_value n
+  generalize showNat n = t at *
+  cases t with
+  | nil => exact absurd rfl hne
+  | cons d s =>
+    have hdd := hd d (by simp)
+    have hc : Cont s s := Cont.ofDigits s (fun c hc => hd c (by simp [hc]))
+    have ht := numberToken_cont hdd hc strict [] (by intro c r h; cases h)
+    simp only [List.append_nil] at ht
+    have hall : (d :: s).all isDigit = true := by
+      simp only [List.all_eq_true]; exact hd
+    simp [nextNumberToken, scanForLayout_digit hdd, hdd, ht, finishInt, completePartial, hall, hv]
+
+theorem scanForLayout_minus (r : List Char) :
+    scanForLayout ('-' :: r) = .ok (false, '-' :: r) := by
+  simp only [scanForLayout]
+  unfold scanL
+  simp [isLayout]
+
+theorem nextNumberToken_minus {d : Char} (hd : isDigit d = true) (strict : Bool) (s : List Char) :
+    nextNumberToken strict ('-' :: d :: s) = .ok (.minus, d :: s) := by
+  have hg := isDigit_not_graphicToken hd
+  have hsp : spanP isGraphicToken ('-' :: d :: s) = (['-'], d :: s) :=
+    spanP_append ['-'] (d :: s) (by simp [isGraphicToken, isGraphic]) (by intro c r h; cases h; exact hg)
+  simp [nextNumberToken, scanForLayout_minus, isDigit, hsp, isGraphicToken, isGraphic]
+
+theorem numberFromText_showInt (i : Int) : numberFromText (showInt i) = .ok (.int i) := by
+  unfold showInt
+  split
+  · rename_i hneg
+    have hd := showNat_digits i.natAbs
+    have hne := showNat_ne_nil i.natAbs
+    have h2 := nextNumberToken_showNat true i.natAbs
+    generalize showNat i.natAbs = t at *
+    cases t with
+    | nil => exact absurd rfl hne
+    | cons d s =>
+      have hdd := hd d (by simp)
+      simp only [numberFromText, numberFromTextG, nextNumberToken_minus hdd, h2, List.isEmpty_nil,
+        if_true, tokValue]
+      congr 2; omega
+  · rename_i hpos
+    simp only [numberFromText, numberFromTextG, nextNumberToken_showNat, List.isEmpty_nil, if_true, tokValue]
+    congr 2
+    simp; omega
+
+
+/-! ### integer literal in context -/
+
+theorem numberToken_int {d : Char} {s ds : List Char} (hd : isDigit d = true) (h : Cont s ds)
+    (strict : Bool) (c : Char) (r : List Char) (hc : isDigit c = false) (hu : c ≠ '_')
+    (hp : PlainStop (d :: ds) c) :
+    numberToken strict (d :: (s ++ c :: r)) = .ok (.int (horner 10 (d :: ds)), c :: r) := by
+  rw [numberToken_cont hd h strict (c :: r) (by intro c' r' e; cases e; exact ⟨hc, hu⟩)]
+  simp only [finishInt]
+  rw [afterInt_plain hp, mkInt_digits (by simp)]
+  intro x hx; simp at hx; rcases hx with rfl | hx
+  · exact hd
+  · exact h.allDigits x hx
+
+/-- `.` not followed by a digit: the integer ends before the dot (end token, infix dot, …) -/
+theorem numberToken_int_dot {d : Char} {s ds : List Char} (hd : isDigit d = true) (h : Cont s ds)
+    (strict : Bool) (r : List Char) (hr : ∀ c r', r = c :: r' → isDigit c = false) :
+    numberToken strict (d :: (s ++ '.' :: r)) = .ok (.int (horner 10 (d :: ds)), '.' :: r) := by
+  rw [numberToken_cont hd h strict ('.' :: r) (by intro c' r' e; cases e; exact ⟨by decide, by decide⟩)]
+  have hall : ∀ x ∈ d :: ds, isDigit x = true := by
+    intro x hx; simp at hx; rcases hx with rfl | hx
+    · exact hd
+    · exact h.allDigits x hx
+  cases r with
+  | nil => simp [finishInt, afterInt, mkInt_digits (List.cons_ne_nil d ds) hall]
+  | cons c r' =>
+    have := hr c r' rfl
+    simp [finishInt, afterInt, this, mkInt_digits (List.cons_ne_nil d ds) hall]
+
+/-! ### float tokens -/
+
+theorem decOfToken_frac (ip fp : List Char) (hi : ∀ c ∈ ip, isDigit c = true)
+    (hf : ∀ c ∈ fp, isDigit c = true) :
+    decOfToken (ip ++ '.' :: fp) = (horner 10 (ip ++ fp), - (fp.length : Int)) := by
+  have h1 : spanP isDigit (ip ++ '.' :: fp) = (ip, '.' :: fp) :=
+    spanP_append ip _ hi (by intro c r e; cases e; decide)
+  have h2 : spanP isDigit fp = (fp, []) := spanP_all fp hf
+  simp [decOfToken, h1, h2]
+
+theorem decOfToken_exp (ip fp ex : List Char) (ec : Char) (hec : isDigit ec = false)
+    (hi : ∀ c ∈ ip, isDigit c = true) (hf : ∀ c ∈ fp, isDigit c = true) :
+    decOfToken (ip ++ '.' :: fp ++ ec :: ex) =
+      (horner 10 (ip ++ fp), expOfToken ex - (fp.length : Int)) := by
+  have h1 : spanP isDigit (ip ++ '.' :: (fp ++ ec :: ex)) = (ip, '.' :: (fp ++ ec :: ex)) :=
+    spanP_append ip _ hi (by intro c r e; cases e; decide)
+  have h2 : spanP isDigit (fp ++ ec :: ex) = (fp, ec :: ex) :=
+    spanP_append fp _ hf (by intro c r e; cases e; exact hec)
+  simp [decOfToken, h1, h2]
+
+/-- `I.F` followed by something that is neither a digit nor an exponent marker -/
+theorem numberToken_frac {d : Char} {s ds : List Char} (hd : isDigit d = true) (h : Cont s ds)
+    (strict : Bool) (f : Char) (fs : List Char) (hf : isDigit f = true)
+    (hfs : ∀ c ∈ fs, isDigit c = true) (c : Char) (r : List Char)
+    (hc : isDigit c = false) (he : c ≠ 'e' ∧ c ≠ 'E') :
+    numberToken strict (d :: (s ++ '.' :: f :: (fs ++ c :: r))) =
+      .ok (.dec (horner 10 (d :: ds ++ f :: fs)) (- ((f :: fs).length : Int)), c :: r) := by
+  rw [numberToken_cont hd h strict _ (by intro c' r' e; cases e; exact ⟨by decide, by decide⟩)]
+  have hall : ∀ x ∈ d :: ds, isDigit x = true := by
+    intro x hx; simp at hx; rcases hx with rfl | hx
+    · exact hd
+    · exact h.allDigits x hx
+  have hsp : spanP isDigit (fs ++ c :: r) = (fs, c :: r) :=
+    spanP_append fs _ hfs (by intro c' r' e; cases e; exact hc)
+  have hdec := decOfToken_frac (d :: ds) (f :: fs) hall
+    (by intro x hx; simp at hx; rcases hx with rfl | hx; exact hf; exact hfs x hx)
+  have hce : (c == 'e' || c == 'E') = false := by simp [he.1, he.2]
+  simp only [finishInt, afterInt, hf, hsp, if_true, beq_self_eq_true, hce, mkDec, hdec]
+  simp
+
+theorem exponentPart_digits (tok : List Char) (ec : Char) (sg : List Char)
+    (hsg : sg = [] ∨ sg = ['+'] ∨ sg = ['-'])
+    (x : Char) (xs : List Char) (hx : isDigit x = true) (hxs : ∀ c ∈ xs, isDigit c = true)
+    (c : Char) (r : List Char) (hc : isDigit c = false) :
+    exponentPart tok ec (sg ++ x :: (xs ++ c :: r)) = mkDec (tok ++ ec :: (sg ++ x :: xs)) (c :: r) := by
+  have hsp2 : spanP isDigit (x :: (xs ++ c :: r)) = (x :: xs, c :: r) := by
+    have := spanP_append (x :: xs) (c :: r)
+      (by intro y hy; simp at hy; rcases hy with rfl | hy; exact hx; exact hxs y hy)
+      (by intro c' r' e; cases e; exact hc)
+    simpa using this
+  have hxp : x ≠ '+' ∧ x ≠ '-' := ⟨ne_of_isDigit hx (by decide), ne_of_isDigit hx (by decide)⟩
+  rcases hsg with rfl | rfl | rfl
+  · simp [exponentPart, hxp.1, hxp.2, hx, hsp2]
+  · simp [exponentPart, hx, hsp2]
+  · simp [exponentPart, hx, hsp2]
+
+/-- the exponent is read when at least one digit follows the marker and the optional sign -/
+theorem numberToken_exp {d : Char} {s ds : List Char} (hd : isDigit d = true) (h : Cont s ds)
+    (strict : Bool) (f : Char) (fs : List Char) (hf : isDigit f = true)
+    (hfs : ∀ c ∈ fs, isDigit c = true) (ec : Char) (hec : ec = 'e' ∨ ec = 'E')
+    (sg : List Char) (hsg : sg = [] ∨ sg = ['+'] ∨ sg = ['-'])
+    (x : Char) (xs : List Char) (hx : isDigit x = true) (hxs : ∀ c ∈ xs, isDigit c = true)
+    (c : Char) (r : List Char) (hc : isDigit c = false) :
+    numberToken strict (d :: (s ++ '.' :: f :: (fs ++ ec :: (sg ++ x :: (xs ++ c :: r))))) =
+      .ok (.dec (horner 10 (d :: ds ++ f :: fs))
+            (expOfToken (sg ++ x :: xs) - ((f :: fs).length : Int)), c :: r) := by
+  rw [numberToken_cont hd h strict _ (by intro c' r' e; cases e; exact ⟨by decide, by decide⟩)]
+  have hall : ∀ y ∈ d :: ds, isDigit y = true := by
+    intro y hy; simp at hy; rcases hy with rfl | hy
+    · exact hd
+    · exact h.allDigits y hy
+  have hecd : isDigit ec = false := by rcases hec with rfl | rfl <;> decide
+  have hsp : spanP isDigit (fs ++ ec :: (sg ++ x :: (xs ++ c :: r))) = (fs, ec :: (sg ++ x :: (xs ++ c :: r))) :=
+    spanP_append fs _ hfs (by intro c' r' e; cases e; exact hecd)
+  have hff : ∀ y ∈ f :: fs, isDigit y = true := by
+    intro y hy; simp at hy; rcases hy with rfl | hy; exact hf; exact hfs y hy
+  have hdec := decOfToken_exp (d :: ds) (f :: fs) (sg ++ x :: xs) ec hecd hall hff
+  have hece : (ec == 'e' || ec == 'E') = true := by rcases hec with rfl | rfl <;> decide
+  simp only [finishInt, afterInt, hf, hsp, if_true, beq_self_eq_true, hece]
+  rw [exponentPart_digits _ ec sg hsg x xs hx hxs c r hc]
+  have e : (d :: ds ++ '.' :: f :: fs ++ ec :: (sg ++ x :: xs)) = (d :: ds ++ '.' :: (f :: fs) ++ ec :: (sg ++ x :: xs)) := by simp
+  simp only [mkDec]
+  rw [e, hdec]
+
+
+/-! ### exponent back-out -/
+
+/-- `I.Fe` not followed by (sign) digit: the token is `I.F`, the reader resumes AT the `e`. -/
+theorem exponentPart_backout (tok : List Char) (ec : Char) (r : List Char)
+    (h : r = [] ∨ (∃ c r', r = c :: r' ∧ isDigit c = false ∧ c ≠ '+' ∧ c ≠ '-') ∨
+         (∃ sg r', r = sg :: r' ∧ (sg = '+' ∨ sg = '-') ∧ ∀ c r'', r' = c :: r'' → isDigit c = false)) :
+    exponentPart tok ec r = mkDec tok (ec :: r) := by
+  rcases h with rfl | ⟨c, r', rfl, hc, h1, h2⟩ | ⟨sg, r', rfl, hsg, hr⟩
+  · simp [exponentPart]
+  · simp [exponentPart, hc, h1, h2]
+  · cases r' with
+    | nil => rcases hsg with rfl | rfl <;> simp [exponentPart]
+    | cons c r'' =>
+      have := hr c r'' rfl
+      rcases hsg with rfl | rfl <;> simp [exponentPart, this]
+
+/-! ### radix literals -/
+
+theorem validIn_16 (c : Char) : validIn 16 c = isHex c := by simp [validIn]
+theorem validIn_8 (c : Char) : validIn 8 c = isOct c := by simp [validIn]
+theorem validIn_2 (c : Char) : validIn 2 c = isBin c := by simp [validIn]
+
+theorem radixConstant_digits (isDig : Char → Bool) (radix : Nat) (start : Char)
+    (hv : ∀ c, validIn radix c = isDig c)
+    (x : Char) (xs : List Char) (hx : isDig x = true) (hxs : ∀ c ∈ xs, isDig c = true)
+    (rest : List Char) (hr : ∀ c r, rest = c :: r → isDig c = false) :
+    radixConstant isDig radix start (x :: (xs ++ rest)) = .ok (.int (horner radix (x :: xs)), rest) := by
+  have hall : ∀ y ∈ x :: xs, isDig y = true := by
+    intro y hy; simp at hy; rcases hy with rfl | hy; exact hx; exact hxs y hy
+  have hsp : spanP isDig (x :: (xs ++ rest)) = (x :: xs, rest) := by
+    simpa using spanP_append (x :: xs) rest hall hr
+  have hp : parseRadix radix (x :: xs) = .ok (horner radix (x :: xs)) := by
+    have h2 : (x :: xs).all (validIn radix) = true := by
+      simp only [List.all_eq_true, hv]; exact hall
+    simp [parseRadix, h2]
+  simp [radixConstant, hx, hsp, hp]
+
+theorem afterInt_zero (c : Char) (r : List Char) (h : c ≠ '.') :
+    afterInt ['0'] c r =
+      if c == 'x' then radixConstant isHex 16 c r
+      else if c == 'o' then radixConstant isOct 8 c r
+      else if c == 'b' then radixConstant isBin 2 c r
+      else if c == '\'' then quoteConstant r
+      else mkInt ['0'] (c :: r) := by
+  simp [afterInt, h]
+
+theorem numberToken_zero (strict : Bool) (c : Char) (r : List Char)
+    (hc : isDigit c = false) (hu : c ≠ '_') :
+    numberToken strict ('0' :: c :: r) = afterInt ['0'] c r := by
+  have := numberToken_cont (d := '0') (by decide) Cont.nil strict (c :: r)
+    (by intro c' r' e; cases e; exact ⟨hc, hu⟩)
+  simpa [finishInt] using this
+
+/-- `0x`, `0o`, `0b` followed by at least one digit of the radix -/
+theorem numberToken_radix (strict : Bool) (p : Char) (isDig : Char → Bool) (radix : Nat)
+    (hp : (p = 'x' ∧ isDig = isHex ∧ radix = 16) ∨ (p = 'o' ∧ isDig = isOct ∧ radix = 8) ∨
+          (p = 'b' ∧ isDig = isBin ∧ radix = 2))
+    (x : Char) (xs : List Char) (hx : isDig x = true) (hxs : ∀ c ∈ xs, isDig c = true)
+    (rest : List Char) (hr : ∀ c r, rest = c :: r → isDig c = false) :
+    numberToken strict ('0' :: p :: x :: (xs ++ rest)) = .ok (.int (horner radix (x :: xs)), rest) := by
+  rcases hp with ⟨rfl, rfl, rfl⟩ | ⟨rfl, rfl, rfl⟩ | ⟨rfl, rfl, rfl⟩
+  · rw [numberToken_zero strict _ _ (by decide) (by decide), afterInt_zero _ _ (by decide)]
+    simp only [beq_self_eq_true, if_true]
+    exact radixConstant_digits isHex 16 _ validIn_16 x xs hx hxs rest hr
+  · rw [numberToken_zero strict _ _ (by decide) (by decide), afterInt_zero _ _ (by decide)]
+    simp only [show ('o' == 'x') = false by decide, beq_self_eq_true, if_true, if_false, Bool.false_eq_true]
+    exact radixConstant_digits isOct 8 _ validIn_8 x xs hx hxs rest hr
+  · rw [numberToken_zero strict _ _ (by decide) (by decide), afterInt_zero _ _ (by decide)]
+    simp only [show ('b' == 'x') = false by decide, show ('b' == 'o') = false by decide,
+      beq_self_eq_true, if_true, if_false, Bool.false_eq_true]
+    exact radixConstant_digits isBin 2 _ validIn_2 x xs hx hxs rest hr
+
+/-- no digit after the radix letter: the literal is `0` and the letter is not consumed -/
+theorem numberToken_radix_fallback (strict : Bool) (p : Char) (c : Char) (r : List Char)
+    (hp : (p = 'x' ∧ isHex c = false) ∨ (p = 'o' ∧ isOct c = false) ∨ (p = 'b' ∧ isBin c = false)) :
+    numberToken strict ('0' :: p :: c :: r) = .ok (.int 0, p :: c :: r) := by
+  rcases hp with ⟨rfl, h⟩ | ⟨rfl, h⟩ | ⟨rfl, h⟩
+  · rw [numberToken_zero strict _ _ (by decide) (by decide), afterInt_zero _ _ (by decide)]
+    simp [radixConstant, h, mkInt, parseRadix, validIn, isDigit, horner, hornerFrom, digitVal]
+  · rw [numberToken_zero strict _ _ (by decide) (by decide), afterInt_zero _ _ (by decide)]
+    simp [radixConstant, h, mkInt, parseRadix, validIn, isDigit, horner, hornerFrom, digitVal]
+  · rw [numberToken_zero strict _ _ (by decide) (by decide), afterInt_zero _ _ (by decide)]
+    simp [radixConstant, h, mkInt, parseRadix, validIn, isDigit, horner, hornerFrom, digitVal]
+
+/-! ### character literals -/
+
+theorem numberToken_quote (strict : Bool) (r : List Char) :
+    numberToken strict ('0' :: '\'' :: r) = quoteConstant r := by
+  rw [numberToken_zero strict _ _ (by decide) (by decide), afterInt_zero _ _ (by decide)]
+  simp
+
+theorem isPlain_ne_backslash {c : Char} (h : isPlainQuotedChar c = true) :
+    c ≠ '\\' ∧ c ≠ '\'' ∧ c ≠ '"' ∧ c ≠ '`' := by
+  refine ⟨?_, ?_, ?_, ?_⟩ <;> (rintro rfl; revert h; decide)
+
+/-- `0'c` for a character that needs no escape -/
+theorem numberToken_char_plain (strict : Bool) (c : Char) (rest : List Char)
+    (h : isPlainQuotedChar c = true) :
+    numberToken strict ('0' :: '\'' :: c :: rest) = .ok (.int c.toNat, rest) := by
+  obtain ⟨h1, h2, h3, h4⟩ := isPlain_ne_backslash h
+  rw [numberToken_quote]
+  simp [quoteConstant, h1, singleQuotedChar, h2, h3, h4, nonQuoteChar, h]
+
+/-- `0'''` (doubled quote) is the code of the quote; `0'"` and 0'` need no doubling -/
+theorem numberToken_char_quotes (strict : Bool) (rest : List Char) :
+    numberToken strict ('0' :: '\'' :: '\'' :: '\'' :: rest) = .ok (.int 39, rest) ∧
+    numberToken strict ('0' :: '\'' :: '"' :: rest) = .ok (.int 34, rest) ∧
+    numberToken strict ('0' :: '\'' :: '`' :: rest) = .ok (.int 96, rest) := by
+  refine ⟨?_, ?_, ?_⟩ <;> rw [numberToken_quote] <;> simp [quoteConstant, singleQuotedChar]
+
+/-- `0''` followed by anything but a quote: the literal is `0`, both quotes stay -/
+theorem numberToken_char_lone_quote (strict : Bool) (c : Char) (rest : List Char) (h : c ≠ '\'') :
+    numberToken strict ('0' :: '\'' :: '\'' :: c :: rest) = .ok (.int 0, '\'' :: '\'' :: c :: rest) := by
+  rw [numberToken_quote]
+  simp [quoteConstant, singleQuotedChar, h, mkInt, parseRadix, validIn, isDigit, horner, hornerFrom, digitVal]
+
+/-- symbolic escapes -/
+theorem numberToken_char_control (strict : Bool) (e : Char) (n : Nat) (rest : List Char)
+    (h : controlEscape e = some n) :
+    numberToken strict ('0' :: '\'' :: '\\' :: e :: rest) = .ok (.int n, rest) := by
+  have he : e = 'a' ∨ e = 'b' ∨ e = 'v' ∨ e = 'f' ∨ e = 't' ∨ e = 'n' ∨ e = 'r' := by
+    unfold controlEscape at h
+    repeat' split at h
+    all_goals simp_all
+  rw [numberToken_quote]
+  rcases he with rfl | rfl | rfl | rfl | rfl | rfl | rfl <;>
+    (simp [controlEscape] at h; subst h
+     simp [quoteConstant, singleQuotedChar, nonQuoteChar, isPlainQuotedChar, isWhitespace, isControl,
+       isMeta, isOct, controlEscape])
+
+/-- `\\`, `\'`, `\"`, `` \` `` -/
+theorem numberToken_char_meta (strict : Bool) (e : Char) (rest : List Char) (h : isMeta e = true) :
+    numberToken strict ('0' :: '\'' :: '\\' :: e :: rest) = .ok (.int e.toNat, rest) := by
+  have hn : e ≠ '\n' := by rintro rfl; revert h; decide
+  have hm : ((e = '\\' ∨ e = '\'') ∨ e = '"') ∨ e = '`' := by simpa [isMeta] using h
+  rw [numberToken_quote]
+  simp [quoteConstant, hn, singleQuotedChar, nonQuoteChar, isPlainQuotedChar, isWhitespace, isControl,
+    isMeta, hm]
+
+
+/-! ### the grid of doubles -/
+
+theorem V_lt_succ (b : Nat) : V b < V (b + 1) := by
+  unfold V
+  by_cases h1 : b + 1 < two52
+  · have : b < two52 := by omega
+    simp [h1, this]
+  · by_cases h2 : b < two52
+    · have hb : b + 1 = two52 := by omega
+      rw [hb]
+      simp only [h2, if_true, Nat.lt_irrefl, if_false]
+      have : two52 % two52 = 0 := by simp
+      have h3 : two52 / two52 = 1 := by decide
+      rw [this, h3]; simp; omega
+    · simp only [h1, h2, if_false]
+      have hE : 1 ≤ b / two52 := by unfold two52 at *; omega
+      have hcase : ((b + 1) / two52 = b / two52 ∧ (b + 1) % two52 = b % two52 + 1) ∨
+          ((b + 1) / two52 = b / two52 + 1 ∧ (b + 1) % two52 = 0 ∧ b % two52 = two52 - 1) := by
+        unfold two52 at *; omega
+      have hp : 0 < 2 ^ (b / two52 - 1) := Nat.pow_pos (by decide)
+      rcases hcase with ⟨e1, e2⟩ | ⟨e1, e2, e3⟩
+      · rw [e1, e2]; nlinarith
+      · rw [e1, e2, e3]
+        have : 2 ^ (b / two52 + 1 - 1) = 2 * 2 ^ (b / two52 - 1) := by
+          have : b / two52 + 1 - 1 = (b / two52 - 1) + 1 := by omega
+          rw [this, Nat.pow_succ]; ring
+        rw [this]
+        have h52 : 0 < two52 := by decide
+        have hw : two52 + (two52 - 1) < two52 * 2 := by omega
+        have := (Nat.mul_lt_mul_right hp).mpr hw
+        calc (two52 + (two52 - 1)) * 2 ^ (b / two52 - 1) < two52 * 2 * 2 ^ (b / two52 - 1) := this
+          _ = (two52 + 0) * (2 * 2 ^ (b / two52 - 1)) := by ring
+
+theorem V_mono {a b : Nat} (h : a ≤ b) : V a ≤ V b := by
+  induction b with
+  | zero => simp at h; subst h; exact Nat.le_refl _
+  | succ n ih =>
+    rcases Nat.eq_or_lt_of_le h with rfl | hlt
+    · exact Nat.le_refl _
+    · exact Nat.le_trans (ih (by omega)) (Nat.le_of_lt (V_lt_succ n))
+
+theorem V_strictMono {a b : Nat} (h : a < b) : V a < V b :=
+  Nat.lt_of_lt_of_le (V_lt_succ a) (V_mono h)
+
+/-! ### the rounding specification -/
+
+theorem rneOK_iff (n d b : Nat) : rneOK n d b = true ↔
+    b ≤ infBits ∧
+    (b = 0 ∨ (if b % 2 = 0 then (V (b - 1) + V b) * d ≤ 2 * (n * scale)
+              else (V (b - 1) + V b) * d < 2 * (n * scale))) ∧
+    (b = infBits ∨ (if b % 2 = 0 then 2 * (n * scale) ≤ (V b + V (b + 1)) * d
+                    else 2 * (n * scale) < (V b + V (b + 1)) * d)) := by
+  unfold rneOK
+  by_cases hp : b % 2 = 0 <;> simp [hp, and_assoc]
+
+/-- a larger (or equal) real number never rounds to a smaller pattern -/
+theorem rneOK_mono {n d n' d' b b' : Nat} (hd : 0 < d) (hd' : 0 < d')
+    (hxy : n * d' ≤ n' * d) (h : rneOK n d b = true) (h' : rneOK n' d' b' = true) : b ≤ b' := by
+  rw [rneOK_iff] at h h'
+  obtain ⟨_, hL, _⟩ := h
+  obtain ⟨hb', _, hU⟩ := h'
+  by_contra hlt
+  have hlt : b' < b := by omega
+  have hb0 : b ≠ 0 := by omega
+  have hbi : b' ≠ infBits := by omega
+  have hL := hL.resolve_left hb0
+  have hU := hU.resolve_left hbi
+  have hS1 : V b' ≤ V (b - 1) := V_mono (by omega)
+  have hS2 : V (b' + 1) ≤ V b := V_mono (by omega)
+  have hxy2 : 2 * (n * scale) * d' ≤ 2 * (n' * scale) * d := by nlinarith
+  generalize 2 * (n * scale) = x at *
+  generalize 2 * (n' * scale) = y at *
+  by_cases hgap : b' + 1 < b
+  · have hS3 : V (b' + 1) < V b := V_strictMono hgap
+    have hL' : (V (b - 1) + V b) * d ≤ x := by split at hL <;> omega
+    have hU' : y ≤ (V b' + V (b' + 1)) * d' := by split at hU <;> omega
+    have h1 : y * d ≤ (V b' + V (b' + 1)) * d' * d := Nat.mul_le_mul_right d hU'
+    have h3 : (V (b - 1) + V b) * d * d' ≤ x * d' := Nat.mul_le_mul_right d' hL'
+    have h2 : (V b' + V (b' + 1)) * d' * d < (V (b - 1) + V b) * d * d' := by
+      have : (V b' + V (b' + 1)) < (V (b - 1) + V b) := by omega
+      have hdd : 0 < d' * d := Nat.mul_pos hd' hd
+      nlinarith
+    omega
+  · have hb : b = b' + 1 := by omega
+    subst hb
+    simp only [Nat.add_sub_cancel] at hL hS1
+    by_cases hp : b' % 2 = 0
+    · have hp' : ¬ ((b' + 1) % 2 = 0) := by omega
+      simp only [hp', if_false] at hL
+      simp only [hp, if_true] at hU
+      have h1 : y * d ≤ (V b' + V (b' + 1)) * d' * d := Nat.mul_le_mul_right d hU
+      have h3 : (V b' + V (b' + 1)) * d * d' < x * d' := by nlinarith
+      have h2 : (V b' + V (b' + 1)) * d' * d = (V b' + V (b' + 1)) * d * d' := by ring
+      omega
+    · simp only [hp, if_false] at hU
+      have hL' : (V b' + V (b' + 1)) * d ≤ x := by split at hL <;> omega
+      have h1 : y * d < (V b' + V (b' + 1)) * d' * d := by nlinarith
+      have h3 : (V b' + V (b' + 1)) * d * d' ≤ x * d' := Nat.mul_le_mul_right d' hL'
+      have h2 : (V b' + V (b' + 1)) * d' * d = (V b' + V (b' + 1)) * d * d' := by ring
+      omega
+
+/-- the specification determines the pattern -/
+theorem rneOK_unique {n d b b' : Nat} (hd : 0 < d) (h : rneOK n d b = true)
+    (h' : rneOK n d b' = true) : b = b' :=
+  Nat.le_antisymm (rneOK_mono hd hd (Nat.le_refl _) h h') (rneOK_mono hd hd (Nat.le_refl _) h' h)
+
+/-- every representable value (incl. the overflow threshold `2^1024`) rounds to itself -/
+theorem rneOK_exact (b : Nat) (hb : b ≤ infBits) : rneOK (V b) scale b = true := by
+  rw [rneOK_iff]
+  refine ⟨hb, ?_, ?_⟩
+  · by_cases h0 : b = 0
+    · exact Or.inl h0
+    · right
+      have : V (b - 1) < V b := V_strictMono (by omega)
+      have hs : 0 < scale := Nat.pow_pos (by decide)
+      split <;> nlinarith
+  · right
+    have : V b < V (b + 1) := V_lt_succ b
+    have hs : 0 < scale := Nat.pow_pos (by decide)
+    split <;> nlinarith
+
+
+theorem V_normal (s m : Nat) (h1 : two52 ≤ m) (h2 : m ≤ 2 * two52) :
+    V (s * two52 + m) = m * 2 ^ s := by
+  unfold V
+  have hnl : ¬ (s * two52 + m < two52) := by omega
+  simp only [hnl, if_false]
+  rcases Nat.lt_or_ge m (2 * two52) with hlt | hge
+  · have e1 : (s * two52 + m) / two52 = s + 1 := by
+      have : s * two52 + m = (s + 1) * two52 + (m - two52) := by
+        have : (s + 1) * two52 = s * two52 + two52 := by ring
+        omega
+      rw [this, Nat.add_comm, Nat.add_mul_div_right _ _ (by decide : 0 < two52)]
+      have : (m - two52) / two52 = 0 := Nat.div_eq_of_lt (by omega)
+      omega
+    have e2 : (s * two52 + m) % two52 = m - two52 := by
+      have : s * two52 + m = (m - two52) + (s + 1) * two52 := by
+        have : (s + 1) * two52 = s * two52 + two52 := by ring
+        omega
+      rw [this, Nat.add_mul_mod_self_right]
+      exact Nat.mod_eq_of_lt (by omega)
+    rw [e1, e2]
+    have : two52 + (m - two52) = m := by omega
+    rw [this]; simp
+  · have hm : m = 2 * two52 := by omega
+    subst hm
+    have e0 : s * two52 + 2 * two52 = (s + 2) * two52 := by ring
+    rw [e0, Nat.mul_div_cancel _ (by decide : 0 < two52), Nat.mul_mod_left]
+    have : s + 2 - 1 = s + 1 := by omega
+    rw [this, Nat.pow_succ]; ring
+
+theorem floorBits_spec (N : Nat) : V (floorBits N) ≤ N ∧ N < V (floorBits N + 1) := by
+  unfold floorBits
+  by_cases h : N < two52
+  · simp only [h, if_true]
+    constructor
+    · unfold V; simp [h]
+    · have := V_lt_succ N
+      have e : V N = N := by unfold V; simp [h]
+      omega
+  · simp only [h, if_false]
+    have hN0 : N ≠ 0 := by unfold two52 at h; omega
+    have hlo : 2 ^ N.log2 ≤ N := Nat.log2_self_le hN0
+    have hhi : N < 2 ^ (N.log2 + 1) := Nat.lt_log2_self
+    have hL : 52 ≤ N.log2 := by
+      by_contra hc
+      have : N.log2 + 1 ≤ 52 := by omega
+      have : 2 ^ (N.log2 + 1) ≤ 2 ^ 52 := Nat.pow_le_pow_right (by decide) this
+      have : (2:Nat) ^ 52 = two52 := by decide
+      omega
+    obtain ⟨s, hs⟩ : ∃ s, N.log2 = s + 52 := ⟨N.log2 - 52, by omega⟩
+    have es : N.log2 - 52 = s := by omega
+    rw [es]
+    have hp : 0 < 2 ^ s := Nat.pow_pos (by decide)
+    have e52 : (2:Nat) ^ 52 = two52 := by decide
+    have hpow : 2 ^ N.log2 = 2 ^ s * two52 := by rw [hs, Nat.pow_add, e52]
+    have hpow1 : 2 ^ (N.log2 + 1) = 2 ^ s * (2 * two52) := by
+      rw [Nat.pow_succ, hpow]; ring
+    have hm1 : two52 ≤ N / 2 ^ s := by
+      rw [Nat.le_div_iff_mul_le hp]; rw [Nat.mul_comm]; omega
+    have hm2 : N / 2 ^ s < 2 * two52 := by
+      rw [Nat.div_lt_iff_lt_mul hp]; rw [Nat.mul_comm]; omega
+    constructor
+    · rw [V_normal s _ hm1 (by omega)]
+      exact Nat.div_mul_le_self N (2 ^ s)
+    · have e : s * two52 + N / 2 ^ s + 1 = s * two52 + (N / 2 ^ s + 1) := by ring
+      rw [e, V_normal s _ (by omega) (by omega)]
+      have := Nat.lt_succ_iff.mpr (Nat.le_refl (N / 2 ^ s))
+      have h3 : N < (N / 2 ^ s + 1) * 2 ^ s := by
+        have := Nat.div_add_mod N (2 ^ s)
+        have hmod := Nat.mod_lt N hp
+        nlinarith
+      exact h3
+
+/-- the executable rounding function satisfies the specification -/
+theorem rne_sound (n d : Nat) (hd : 0 < d) : rneOK n d (rne n d) = true := by
+  have hfl := floorBits_spec (n * scale / d)
+  have hdiv1 : n * scale / d * d ≤ n * scale := Nat.div_mul_le_self _ _
+  have hdiv2 : n * scale < (n * scale / d + 1) * d := by
+    have := Nat.div_add_mod (n * scale) d
+    have := Nat.mod_lt (n * scale) hd
+    nlinarith
+  unfold rne
+  simp only []
+  generalize hb : floorBits (n * scale / d) = b at *
+  generalize hX : n * scale = X at *
+  obtain ⟨hf1, hf2⟩ := hfl
+  have hlow : V b * d ≤ X := Nat.le_trans (Nat.mul_le_mul_right d hf1) hdiv1
+  have hup : X < V (b + 1) * d := by
+    have : (X / d + 1) * d ≤ V (b + 1) * d := Nat.mul_le_mul_right d (by omega)
+    omega
+  have hev : infBits % 2 = 0 := by decide
+  have lowerOK : ∀ c, c ≤ b → c ≠ 0 → (V (c - 1) + V c) * d < 2 * X := by
+    intro c hc hc0
+    have h1 : V (c - 1) < V c := V_strictMono (by omega)
+    have h2 : V c ≤ V b := V_mono hc
+    nlinarith
+  have upperOK : ∀ c, b + 1 ≤ c → 2 * X < (V c + V (c + 1)) * d := by
+    intro c hc
+    have h1 : V c < V (c + 1) := V_lt_succ c
+    have h2 : V (b + 1) ≤ V c := V_mono hc
+    nlinarith
+  by_cases hinf : b ≥ infBits
+  · simp only [hinf, if_true]
+    rw [rneOK_iff, hX]
+    refine ⟨Nat.le_refl _, Or.inr ?_, Or.inl rfl⟩
+    simp only [hev, if_true]
+    exact Nat.le_of_lt (lowerOK infBits hinf (by decide))
+  · simp only [hinf, if_false]
+    have hbi : b < infBits := by omega
+    by_cases hlt : 2 * X < (V b + V (b + 1)) * d
+    · simp only [hlt, if_true]
+      rw [rneOK_iff, hX]
+      refine ⟨by omega, ?_, Or.inr ?_⟩
+      · by_cases h0 : b = 0
+        · exact Or.inl h0
+        · right
+          have := lowerOK b (Nat.le_refl _) h0
+          split
+          · exact Nat.le_of_lt this
+          · exact this
+      · split
+        · exact Nat.le_of_lt hlt
+        · exact hlt
+    · simp only [hlt, if_false]
+      by_cases heq : 2 * X = (V b + V (b + 1)) * d
+      · simp only [heq, if_true]
+        by_cases hp : b % 2 = 0
+        · have hp' : (b % 2 == 0) = true := by simp [hp]
+          simp only [hp', if_true]
+          rw [rneOK_iff, hX]
+          refine ⟨by omega, ?_, Or.inr ?_⟩
+          · by_cases h0 : b = 0
+            · exact Or.inl h0
+            · right
+              have := lowerOK b (Nat.le_refl _) h0
+              simp only [hp, if_true]; exact Nat.le_of_lt this
+          · simp only [hp, if_true]; exact Nat.le_of_eq heq
+        · have hp' : (b % 2 == 0) = false := by simp [hp]
+          simp only [hp', Bool.false_eq_true, if_false]
+          have hp2 : (b + 1) % 2 = 0 := by omega
+          rw [rneOK_iff, hX]
+          refine ⟨by omega, Or.inr ?_, ?_⟩
+          · simp only [hp2, if_true, Nat.add_sub_cancel]; exact Nat.le_of_eq heq.symm
+          · by_cases hi : b + 1 = infBits
+            · exact Or.inl hi
+            · right
+              have := upperOK (b + 1) (Nat.le_refl _)
+              simp only [hp2, if_true]; exact Nat.le_of_lt this
+      · simp only [heq, if_false]
+        have hgt : (V b + V (b + 1)) * d < 2 * X := by omega
+        rw [rneOK_iff, hX]
+        refine ⟨by omega, Or.inr ?_, ?_⟩
+        · simp only [Nat.add_sub_cancel]
+          split
+          · exact Nat.le_of_lt hgt
+          · exact hgt
+        · by_cases hi : b + 1 = infBits
+          · exact Or.inl hi
+          · right
+            have := upperOK (b + 1) (Nat.le_refl _)
+            split
+            · exact Nat.le_of_lt this
+            · exact this
+
+/-- inside the guard window the bits computed for a decimal satisfy the specification -/
+theorem decToBits_sound (m : Nat) (e : Int) (hm : m ≠ 0)
+    (h1 : ¬ ((numDigits (m + 1) m : Nat) : Int) + e > 310)
+    (h2 : ¬ ((numDigits (m + 1) m : Nat) : Int) + e < -330) :
+    decRoundsTo m e (decToBits m e) = true := by
+  unfold decToBits decRoundsTo
+  simp only [hm, if_false, h1, h2]
+  split
+  · exact rne_sound _ 1 (by decide)
+  · exact rne_sound _ _ (Nat.pow_pos (by decide))
+
+
+theorem scanForLayout_layout_digit (lay : List Char) (hl : ∀ x ∈ lay, isLayout x = true)
+    {d : Char} (hd : isDigit d = true) (s : List Char) :
+    ∃ b, scanForLayout (lay ++ d :: s) = .ok (b, d :: s) := by
+  cases lay with
+  | nil => exact ⟨false, by simpa using scanForLayout_digit hd s⟩
+  | cons x xs =>
+    have := scanL_layout (x :: xs) hl false hd s
+    exact ⟨_, by simpa [scanForLayout] using this⟩
+
+theorem nextNumberToken_layout (strict : Bool) (lay : List Char) (hl : ∀ x ∈ lay, isLayout x = true)
+    {d : Char} (hd : isDigit d = true) (s : List Char) :
+    nextNumberToken strict (lay ++ d :: s) = nextNumberToken strict (d :: s) := by
+  obtain ⟨b, hb⟩ := scanForLayout_layout_digit lay hl hd s
+  simp [nextNumberToken, hb, scanForLayout_digit hd]
+
+theorem numberFromText_layout (lay : List Char) (hl : ∀ x ∈ lay, isLayout x = true)
+    {d : Char} (hd : isDigit d = true) (s : List Char) :
+    numberFromText (lay ++ d :: s) = numberFromText (d :: s) := by
+  simp only [numberFromText, numberFromTextG, nextNumberToken_layout true lay hl hd]
+
+theorem nextNumberToken_digit {d : Char} (hd : isDigit d = true) (strict : Bool) (s : List Char)
+    (t : NumTok) (rest : List Char) (h : numberToken strict (d :: s) = .ok (t, rest)) :
+    nextNumberToken strict (d :: s) = .ok (.num (completePartial t), rest) := by
+  simp [nextNumberToken, scanForLayout_digit hd, hd, h]
+
+theorem numberFromText_trailing {d : Char} (hd : isDigit d = true) (s : List Char) (t : NumTok)
+    (c : Char) (r : List Char) (h : numberToken true (d :: s) = .ok (t, c :: r)) :
+    numberFromText (d :: s) = .error (.unexpChar c) := by
+  simp [numberFromText, numberFromTextG, nextNumberToken_digit hd _ _ _ _ h]
+
+theorem numberFromText_complete {d : Char} (hd : isDigit d = true) (s : List Char) (t : NumTok)
+    (h : numberToken true (d :: s) = .ok (t, [])) :
+    numberFromText (d :: s) = tokValue false (completePartial t) := by
+  simp [numberFromText, numberFromTextG, nextNumberToken_digit hd _ _ _ _ h]
+
+theorem nextNumberToken_minus_layout (strict : Bool) (lay : List Char)
+    (hl : ∀ x ∈ lay, isLayout x = true) {d : Char} (hd : isDigit d = true) (s : List Char) :
+    nextNumberToken strict ('-' :: (lay ++ d :: s)) = .ok (.minus, lay ++ d :: s) := by
+  have hnext : ∀ c r, lay ++ d :: s = c :: r → isGraphicToken c = false := by
+    intro c r e
+    cases lay with
+    | nil => simp at e; rw [← e.1]; exact isDigit_not_graphicToken hd
+    | cons x xs =>
+      simp at e; rw [← e.1]
+      have hx := hl x (by simp)
+      revert hx
+      simp only [isLayout, isGraphicToken, isGraphic, Bool.or_eq_true, beq_iff_eq, Bool.or_eq_false_iff,
+        beq_eq_false_iff_ne]
+      intro hx
+      have : ∀ g : Char, g.toNat ≠ 32 → g.toNat ≠ 13 → g.toNat ≠ 10 → g.toNat ≠ 9 → g.toNat ≠ 11 →
+          g.toNat ≠ 12 → x ≠ g := by
+        rintro g a1 a2 a3 a4 a5 a6 rfl; omega
+      repeat' apply And.intro
+      all_goals exact this _ (by decide) (by decide) (by decide) (by decide) (by decide) (by decide)
+  have hsp : spanP isGraphicToken ('-' :: (lay ++ d :: s)) = (['-'], lay ++ d :: s) :=
+    spanP_append ['-'] _ (by simp [isGraphicToken, isGraphic]) hnext
+  have hne : (lay ++ d :: s).isEmpty = false := by cases lay <;> simp
+  simp [nextNumberToken, scanForLayout_minus, isDigit, hsp, isGraphicToken, isGraphic, hne]
+
+/-- `- layout* literal`: the negated value -/
+theorem numberFromText_minus (lay : List Char) (hl : ∀ x ∈ lay, isLayout x = true)
+    {d : Char} (hd : isDigit d = true) (s : List Char) (t : NumTok)
+    (h : numberToken true (d :: s) = .ok (t, [])) :
+    numberFromText ('-' :: (lay ++ d :: s)) = tokValue true (completePartial t) := by
+  simp [numberFromText, numberFromTextG, nextNumberToken_minus_layout true lay hl hd,
+    nextNumberToken_layout true lay hl hd, nextNumberToken_digit hd _ _ _ _ h]
+
+theorem numberFromText_plus {d : Char} (hd : isDigit d = true) (s : List Char) :
+    numberFromText ('+' :: d :: s) = .error .other := by
+  have hg := isDigit_not_graphicToken hd
+  have hsp : spanP isGraphicToken ('+' :: d :: s) = (['+'], d :: s) :=
+    spanP_append ['+'] (d :: s) (by simp [isGraphicToken, isGraphic]) (by intro c r h; cases h; exact hg)
+  have hl : scanForLayout ('+' :: d :: s) = .ok (false, '+' :: d :: s) := by
+    simp only [scanForLayout]; unfold scanL; simp [isLayout]
+  simp [numberFromText, numberFromTextG, nextNumberToken, hl, isDigit, hsp, isGraphicToken, isGraphic]
 
 end Scryer.NumLex
